@@ -45,6 +45,7 @@ func runC10(e *Engine, r *Report) {
 	ruleTanManifestSync(e, r)
 	ruleCreatedFileSync(e, r, 1, "internal/tan", "internal/fileutil")
 	ruleTanNewLogOrder(e, r)
+	ruleTanSyncSameDB(e, r)
 }
 
 // runTanDirSync: after the CURRENT pointer is switched (rename inside
